@@ -63,7 +63,8 @@ def make_scenario(seed):
     n_rows_guess = int(dp["n_files"] * dp["n_spectra"] * (1 + dp["max_per_spectrum"]) / 2)
     per_file = max(1, n_rows_guess // dp["n_files"])
     folds = rng.choice([2, 3, 3, 4, 5])
-    while folds > 2 and per_file / folds < 45:
+    smallest = per_file * min(dp.get("size_factors") or [1.0])
+    while folds > 2 and smallest / folds < 45:
         folds -= 1
     learner = rng.choices(["olda", "rlda", "svc", "perc"], weights=[70, 12, 10, 8])[0]
     r = rng.random()
